@@ -4,6 +4,8 @@
 pub const VALUE_FRAGS: &[&str] = &[
     "", "a", "b", "ab", "ba", "c", "é", "\u{7f}", "ÿ", "\u{80}", "日本", "😀", " ", "0",
     "aaaaaaaaaaaaaaaaaaaaaaaaaaaaaaaaaaaaaaaa", "\0", "\0\0", "abcdefg", "A", ",", "!",
+    // nine bytes and more that agree in the first seven / eight, the last of these inside a multi-byte character
+    "abcdefgéx", "abcdefgèx", "abcdefghi", "abcdefghj",
 ];
 
 /// Adversarial fragments for help texts and label values in exposition formats.
@@ -59,6 +61,40 @@ pub fn length_wrap_twins(w: usize) -> ((String, String), (String, String)) {
     let a = "A".repeat(w);
     let v2 = "y".repeat(l2);
     ((format!("{}{}", a, x), v2.clone()), (String::new(), format!("{}{}{}", x, a, v2)))
+}
+
+/// Pairs of short strings whose 64-bit FNV-1a keys (value bytes followed by the 0xFF separator, as the vector computes them for
+/// a single label) agree in their low 16 bits: structures that look at a part of the key only - presence filters, shards,
+/// small tables - treat the two alike. Found by enumeration at first use (deterministic).
+pub fn fnv_low_bits_pairs() -> &'static Vec<(String, String)> {
+    static POOL: std::sync::OnceLock<Vec<(String, String)>> = std::sync::OnceLock::new();
+    POOL.get_or_init(|| {
+        let key = |s: &str| -> u64 {
+            let mut h: u64 = 0xcbf29ce484222325;
+            for b in s.bytes().chain(std::iter::once(0xFFu8)) {
+                h ^= b as u64;
+                h = h.wrapping_mul(0x100000001b3);
+            }
+            h
+        };
+        let mut seen: std::collections::HashMap<u64, String> = std::collections::HashMap::new();
+        let mut out = vec![];
+        for n in 0..60_000u32 {
+            let s = format!("u{}", n);
+            let k = key(&s) & 0xFFFF;
+            match seen.get(&k) {
+                Some(t) if out.len() < 6 => out.push((t.clone(), s)),
+                Some(_) => {}
+                None => {
+                    seen.insert(k, s);
+                }
+            }
+            if out.len() >= 6 {
+                break;
+            }
+        }
+        out
+    })
 }
 
 pub const VALID_LABEL_NAMES: &[&str] = &["a", "b", "ab", "l1", "x_y", "B", "_z", "le2", "quantile_", "a0"];
